@@ -16,17 +16,20 @@ from common import VERIF, coq_list, coq_N, coq_nat, stdlib_files
 
 LEVEL = 'proof'
 ASSUMPTIONS = [
-    'CPython 3.12 symtable.symtable() reports the compiler\'s own symbol table (oracle); comprehension blocks are '
-    'inlined by this CPython (PEP 709) and reported inside the enclosing block, which is the convention of the property '
-    '("comprehension targets are compared as bindings of the enclosing scope")',
+    'CPython 3.12 symtable.symtable() reports the compiler\'s own symbol table (oracle); list/set/dict comprehension '
+    'blocks are inlined by this CPython (PEP 709) and their symbols reported inside the enclosing block, generator '
+    'expressions are blocks of their own; the scope tree gives a block its bindings other than comprehension '
+    'iteration variables (local to the comprehension for CPython and, since fix F53, not locals of the scope for supp)',
     'the harness tree builder (ast -> scope tree: which constructs bind a name, in which block an expression is '
     'evaluated) follows symtable.c; it is validated on every run by (R): identifier sets and owners of every block '
     'must equal symtable\'s',
     'global reads: CPython decides module-vs-builtin at run time; "module" and "builtin" owners of supp are both '
     'accepted where the compiler says global',
-    'names whose resolution by CPython depends on a comprehension being a scope of its own (bound only as comprehension '
-    'targets, comprehension targets in class bodies or under a global/nonlocal declaration, generator expressions in '
-    'class bodies) and the implicit __class__ cell are outside the compared domain (counted in the evidence)',
+    'reads of a name that is a comprehension iteration variable of a block on their chain (unless that block is a '
+    'function which also binds the name otherwise and does not declare it), reads inside a generator expression in a '
+    'class body of names the class binds or declares, and the implicit __class__ cell are outside the compared domain '
+    '(counted in the evidence): inside the comprehension, and behind it where supp still offers the variable (open '
+    'finding K6-C05), the scope tree cannot express what either party does',
     'the theorems use one bound-name set per block for both parties: that supp records as bound exactly the names '
     'symtable.c marks DEF_BOUND is checked by (I) on every source, not proved; it is false for binding forms supp does '
     'not know (open finding K4-C05: match capture patterns; bare annotations, augmented-assignment-only and del-only '
@@ -378,7 +381,7 @@ def comp_tainted(sc, x):
     since fix F53 - for supp, which keeps it in the comprehension's flow and out of the scope's locals),
     but inside the comprehension, and behind it where supp's comp-join flow still offers the variable as
     a possible alternative, supp reports a binding whose Name.scope is the enclosing scope. Such reads
-    are compared under the convention of the property text only (see Analysed.reads). Not tainted: the
+    are outside the compared domain (counted). Not tainted: the
     block is a function that also binds x otherwise and does not declare it (then x is its local for
     everybody)."""
     s = sc
@@ -634,27 +637,6 @@ class Analysed(object):
                     st('reads_not_visited_by_supp')
                     continue
                 why = excluded(sc, blk, x)
-                if why == 'comp_tainted':
-                    # the convention of the property text: a comprehension variable is compared as a binding
-                    # of the scope the comprehension is written in. Every owner supp reports must be what
-                    # symtable says for the read or a scope of the chain that has x as comprehension variable.
-                    st('reads_convention')
-                    allowed = [MODULE if c.kind == K_MODULE else c for c in comp_scopes(sc, x)]
-                    try:
-                        exp = st_owner_merged(blk, x)
-                    except Mismatch:
-                        exp = None
-                    got, _where = self.run.owners_at(node)
-                    for o in got:
-                        if any(o is a or o == a for a in allowed):
-                            continue
-                        if exp is not None and owner_ok([o], exp):
-                            continue
-                        self.convention_bad.append((x, (node.lineno, node.col_offset), sorted(owner_str(g) for g in got),
-                                                    '%s or %s' % (owner_str(exp), [owner_str(a) for a in allowed]),
-                                                    'read in %s (comprehension variable)' % owner_str(sc)))
-                        break
-                    continue
                 if why:
                     st('reads_excluded_' + why)
                     continue
@@ -751,8 +733,7 @@ class Gen(object):
             form = self.rng.choice(['[%s for %s in %s%s]', '{%s for %s in %s%s}', 'list(%s for %s in %s%s)',
                                     '{%s: 0 for %s in %s%s}'])
             return form % (elt, t, it, cond)
-        if r < 0.95 and not in_class and self.comp_depth <= 1:
-            # (not under two comprehension levels: open finding K5-C05, the binding is lost by nast.py)
+        if r < 0.95 and not in_class:
             return '(%s := %s)' % (self.name(), self.name())
         return '%s.attr' % self.name()
 
@@ -1151,6 +1132,35 @@ def check_known_k5(ctx):
     if still:
         ctx.known_finding('K5-C05', 'the binding of a walrus under two comprehension levels reaches no flow: read %r at %r '
                           'has no binding although its scope binds the name' % (obj['read'][0], tuple(obj['read'][1])))
+    check_known_k6(ctx)
+
+
+def check_known_k6(ctx):
+    """Open finding K6-C05: behind a comprehension its variable is still offered as an alternative owned by
+    the enclosing function. Re-run exactly the recorded input (the read is outside the compared domain, so it
+    is evaluated here by hand: supp's owners vs symtable's owner)."""
+    p = os.path.join(VERIF, 'corpus', 'C05', 'known_K6-C05.json')
+    if not os.path.exists(p):
+        return
+    obj = json.load(open(p))
+    try:
+        an = Analysed(obj['source'], 'known.py')
+        hit = None
+        for sc in an.scopes:
+            for node, blk in sc.loads:
+                if (node.id, (node.lineno, node.col_offset)) == (obj['read'][0], tuple(obj['read'][1])):
+                    hit = (sc, an.run.owners_at(node)[0], st_owner_merged(blk, node.id))
+    except Exception as e:
+        ctx.violation('known finding input K6-C05: %s: %s' % (type(e).__name__, e),
+                      {'kind': 'direct', 'source': obj['source']}, found_input=True)
+        return
+    still = hit is not None and hit[2] == GLOB and any(o is hit[0] for o in hit[1])
+    ctx.coverage['known_finding_K6_still_fails'] = bool(still)
+    if still:
+        ctx.known_finding('K6-C05', 'behind a comprehension its variable is still offered as an alternative owned by the '
+                          'enclosing function: read %r at %r resolves to %r, CPython: global' % (
+                              obj['read'][0], tuple(obj['read'][1]), sorted(owner_str(o) for o in hit[1])))
+
 
 
 def run(ctx):
